@@ -106,6 +106,17 @@ let () =
     match Doc.doc_dom e p with
     | None -> out_s "U"
     | Some _ -> out_bool (Doc.in_doc_domain Constraints.classes e p v));
+  (* the finite bounds and the strings the documented domain mentions (so that they are probed whatever the code declares) *)
+  register "c16.docinfo" (fun t -> let e = next_name t in let p = next_name t in
+    match Doc.doc_dom e p with
+    | None -> out_s "U"
+    | Some d ->
+      out_s "D";
+      let zb = Stdlib.List.concat_map (fun i -> Stdlib.List.filter_map (fun x -> x) [i.Doc.zlo; i.Doc.zhi]) d.Doc.d_ints in
+      out_list (fun z -> out_s (string_of_int (int_of_z z))) zb;
+      let qb = Stdlib.List.concat_map (fun i -> Stdlib.List.filter_map (function Validation.Fin q -> Some q | _ -> None) [i.Doc.qlo; i.Doc.qhi]) d.Doc.d_reals in
+      out_list out_q qb;
+      out_list (fun s -> out_s (hex (ostr s))) d.Doc.d_strs);
   register "c16.dump" (fun _ ->
     out_table Constraints.estimators; out_table Constraints.functions;
     out_list (fun (c, (bs, ms)) -> out_name c; out_list out_name bs; out_list out_name ms) Constraints.classes;
@@ -116,15 +127,19 @@ let () =
     out_list (fun (((e, p), _), _) -> out_name e; out_name p) act);
   register "c16.subclass" (fun t -> let c = next_name t in let b = next_name t in
     out_bool (Validation.subclass_of Constraints.classes c b));
-  (* check_groups <d> <groups> *)
-  register "c16.groups" (fun t -> let d = next_nat t in let g = next_list (next_list next_z) t in
-    out_opt (out_list (out_list (fun z -> out_int (int_of_z z)))) (Validation.check_groups g d));
+  (* check_groups <d> <groups> ; an entry is a decimal integer, b0 / b1 (a bool) or o (anything else) *)
+  register "c16.groups" (fun t -> let d = next_nat t in
+    let entry t = (match next t with
+      | "o" -> Validation.GOther | "b0" -> Validation.GBool false | "b1" -> Validation.GBool true
+      | z -> Validation.GInt (z_of_string z)) in
+    let g = next_list (next_list entry) t in
+    out_opt (out_list (out_list (fun z -> out_int (int_of_z z)))) (Validation.check_groups_entries g d));
+  register "c16.precomputed" (fun t ->
+    let ndim = next_nat t in let rows = next_nat t in let cols = next_nat t in let n = next_nat t in
+    let numeric = next_bool t in let finite = next_bool t in
+    out_bool (Validation.precomputed_ok ndim rows cols n numeric finite));
   register "c16.cross" (fun t -> let a = next_z t in let b = next_z t in out_bool (Validation.kauri_cross_ok a b));
-  register "c16.mask" (fun t -> let m = next_opt next_nat t in let d = next_nat t in out_bool (Validation.douglas_mask_ok m d));
-  register "c16.sparsedata" (fun t ->
-    let sh = next_bool t in
-    let ndim = next_nat t in let n = next_nat t in let d = next_nat t in let numeric = next_bool t in let finite = next_bool t in
-    let m = next_nat t in out_bool (Validation.sparse_data_ok sh ndim n d numeric finite m));
+  register "c16.mask" (fun t -> let m = next_opt (next_list next_bool) t in let d = next_nat t in out_bool (Validation.douglas_mask_ok m d));
   register "c16.data" (fun t ->
     let ndim = next_nat t in let n = next_nat t in let d = next_nat t in let numeric = next_bool t in let finite = next_bool t in
     let m = next_nat t in out_bool (Validation.data_ok ndim n d numeric finite m));
